@@ -13,7 +13,7 @@ def run(p):
     m = re.findall(r'^FIRED: (.*)$', r.stdout, re.M)
     u = re.findall(r'^UNDECIDED: (.*)$', r.stdout, re.M)
     return p, (m[0] if m else 'ERROR ' + r.stdout[-200:]) + ('' if not u or u[0] == '(none)' else '  [undecided: ' + u[0] + ']')
-pats = sorted(glob.glob(os.path.join(VERIF, 'seeded', '*', 'patch.diff'))) + sorted(glob.glob(os.path.join(VERIF, 'neutral', '*', 'patch.diff'))) + sys.argv[1:]
+pats = sorted(glob.glob(os.path.join(VERIF, 'seeded', '*', 'patch.diff'))) + sorted(glob.glob(os.path.join(VERIF, 'neutral', '*', 'patch.diff'))) + [a for a in sys.argv[1:] if not a.startswith('--')]
 bad = 0
 with ThreadPoolExecutor(4) as ex:
     for p, fired in ex.map(run, pats):
@@ -25,6 +25,14 @@ with ThreadPoolExecutor(4) as ex:
         if kind == 'seeded' and not ok and os.path.exists(mp) and json.load(open(mp)).get('expected_uncaught'):
             ok = True
             fired += '  (documented miss)'
+        if kind == 'seeded' and '--update' in sys.argv and os.path.exists(mp) and not fired.startswith('ERROR'):
+            md = json.load(open(mp))
+            now = fired.split('[')[0].split('(')[0].split()
+            if md.get('checks_fired') != now:
+                md.setdefault('checks_fired_when_confirmed', md.get('checks_fired'))
+                md['checks_fired'] = now
+                md['caught_by_own_property_check'] = prop in now
+                json.dump(md, open(mp, 'w'), indent=1)
         bad += 0 if ok else 1
         print(f'{kind:8s} {d:12s} fired: {fired}  {"ok" if ok else "<<<<<< UNEXPECTED"}')
 sys.exit(1 if bad else 0)
